@@ -189,6 +189,8 @@ func mainRun(args []string) int {
 		}
 		sc := p.Gen(NewRng(scenarioSeed(*seed, *prop, idx)), idx, *tier)
 		sc.Seed, sc.Index = *seed, idx
+		// judge exactly what a replay file would carry: the scenario after a JSON round trip
+		sc = cloneJSON(sc)
 		var hs []uint64
 		if *hashesPath != "" {
 			execHashes = &hs
